@@ -1403,8 +1403,18 @@ fn bulk_trace(prop: &str, seed: u64) -> Trace {
     let mut g = Gen::new(seed, profile(prop));
     let pk = g.authors[0];
     let other = g.authors[1];
-    let n_own = g.rng.range(505, 640) as usize;
-    let n_wraps = if g.rng.chance(1, 2) { g.rng.range(505, 560) as usize } else { g.rng.range(0, 30) as usize };
+    // (C13: a smaller crowd, and the vanish is killed half-way, the store recovered, the vanish
+    // run again to the end: whatever pages or batches the vanish works in, nothing of the key may
+    // be left)
+    let small = prop == "C13";
+    let n_own = if small { g.rng.range(66, 210) as usize } else { g.rng.range(505, 640) as usize };
+    let n_wraps = if small {
+        if g.rng.chance(1, 2) { g.rng.range(66, 140) as usize } else { g.rng.range(0, 10) as usize }
+    } else if g.rng.chance(1, 2) {
+        g.rng.range(505, 560) as usize
+    } else {
+        g.rng.range(0, 30) as usize
+    };
     let mut ops: Vec<Op> = vec![Op::Clock(Some(g.clock))];
     for i in 0..n_own {
         let e = EvSpec { id: g.rng.bytes32(), pk, kind: 1, at: T0 + (i as u64 % 50), tags: vec![], content: vec![(i & 0xff) as u8] };
@@ -1428,7 +1438,14 @@ fn bulk_trace(prop: &str, seed: u64) -> Trace {
     ops.push(Op::Query(QuerySpec { kinds: vec![1059], tags: vec![('p', vec![hex(&pk)])], ..base.clone() }));
     ops.push(Op::Query(QuerySpec { limit: Some(g.rng.range(498, 520) as u32), ..base.clone() }));
     ops.push(Op::Query(base.clone()));
-    if g.rng.chance(2, 3) {
+    if small {
+        let _ = g.model.apply_vanish(&pk);
+        if g.rng.chance(2, 3) {
+            ops.push(Op::Crash(g.rng.below(60) as u32));
+        }
+        ops.push(Op::Vanish(pk));
+        ops.push(Op::Vanish(pk));
+    } else if g.rng.chance(2, 3) {
         let _ = g.model.apply_vanish(&pk);
         ops.push(Op::Vanish(pk));
     } else {
@@ -2044,6 +2061,9 @@ fn return_valueless(tags: &mut Vec<Vec<String>>, letter: &str) -> String {
 
 pub fn generate(prop: &str, seed: u64) -> Trace {
     if matches!(prop, "C18" | "C05" | "C17") && seed % 64 == 0 {
+        return bulk_trace(prop, seed);
+    }
+    if prop == "C13" && seed % 16 == 9 {
         return bulk_trace(prop, seed);
     }
     if !matches!(prop, "C12" | "C13") && seed % 64 == 3 {
